@@ -338,10 +338,11 @@ func (r *relay) processor(id uint32) Processor {
 }
 
 func (r *relay) updateTableSize(v uint32) {
-	r.decoderMu.Lock()
-	r.decoder.SetMaxDynamicTableSize(v)
-	r.decoderMu.Unlock()
-
+	// Only the encoder follows the setting: `v` is what the endpoint this relay writes to allows.
+	// The decoder reads blocks from the other endpoint, whose encoder keeps its table until it
+	// has processed the forwarded SETTINGS frame and then says so with a dynamic table size
+	// update at the start of its next block; shrinking the decoder's table before that evicts
+	// entries that blocks still on their way refer to.
 	r.encoderMu.Lock()
 	r.encoder.SetMaxDynamicTableSize(v)
 	r.encoderMu.Unlock()
